@@ -75,6 +75,10 @@ def make_problem(spec):
         lb, ub, plb, pub = [0.01] * D, [10.0] * D, [0.1] * D, [1.0] * D
     elif box == "wide":        # hard box much wider than the plausible box, minimum away from the centre: the mesh is refined far from the origin
         lb, ub, plb, pub = [-20.0] * D, [20.0] * D, [-8.0] * D, [8.0] * D
+    elif box == "mixlog":      # an unbounded coordinate next to a log-scaled one (and a plain bounded one from D = 3)
+        lb, ub, plb, pub = [-5.0] * D, [5.0] * D, [-2.0] * D, [2.0] * D
+        lb[0], ub[0] = -np.inf, np.inf
+        lb[-1], ub[-1], plb[-1], pub[-1] = 0.01, 100.0, 0.1, 10.0
     elif box == "unb":
         lb, ub, plb, pub = [-np.inf] * D, [np.inf] * D, [-2.0] * D, [2.0] * D
     elif box == "mixed":
@@ -88,6 +92,8 @@ def make_problem(spec):
         center = np.where(np.asarray(lb) > 0, 1.7, 0.0) + 0.0 * shift
         if spec.get("target") == "outside":
             center = np.where(np.asarray(lb) > 0, 1000.0, 9.0)
+    elif box == "mixlog":
+        center = np.asarray([0.3] * (D - 1) + [1.7]) if tname != "outside" else np.asarray([9.0] * (D - 1) + [1000.0])
     elif box == "logbig":
         center = np.full(D, 40.0) if tname != "outside" else np.full(D, 0.5)
     elif box == "dec":
@@ -153,6 +159,8 @@ def make_problem(spec):
         cons = lambda X: (np.sum(np.atleast_2d(X) ** 2, axis=1) - 2.0 * D) * 1e-9  # noqa: E731
     elif cname == "tinyhalf":
         cons = lambda X: (np.atleast_2d(X)[:, 0] - 1.0) * 1e-10  # noqa: E731
+    elif cname == "stripes":   # the box minus thin stripes: a lot of boundary, feasibility changes within a fraction of a mesh step
+        cons = lambda X: (np.mod(np.atleast_2d(X)[:, 0] * 3.0 + 0.37, 1.0) < 0.1).astype(float)  # noqa: E731
     elif cname == "lattice":   # feasible only on a coarse lattice: ES populations collapse to few or zero survivors
         cons = lambda X: np.any(np.abs(np.atleast_2d(X) / 0.25 - np.round(np.atleast_2d(X) / 0.25)) > 1e-9, axis=1).astype(float)  # noqa: E731
     xk = spec.get("x0", "given")
